@@ -38,8 +38,8 @@ TEXT = {
          BASE + "unify_chunks_expr's cost logic is bounded only.", T),
  "C18": ("Bounded stand-in: 28 reducers (incl. central moments of order 3-5, ptp, count_nonzero, average, topk) over axes, keepdims, split_every and layouts equal NumPy; the reduction tree reaches one block (depth bound incl. the float logarithm) for n up to 2000 (quick) / 200000 blocks.",
          "Not proved. Numerical associativity of combine functions is a fact about NumPy kernels.", TB),
- "C19": ("ensure_minimum_chunksize is proved from the real loop for all inputs (total kept, every chunk >= size, or ValueError exactly when the axis is shorter). The guard supports_native_sliding_window and the banded plan SlidingWindowReduction._block_plan are proved: under the guard, window t of block q is exactly the block's suffix from t, the whole middle blocks and the first band_offset+t+1 elements of the band blocks b..e. sliding_window_view alone and under reductions (windows larger than a block), overlap boundaries, diff, gradient and cumulative scans are bounded stand-ins against the NumPy definitions.",
-         BASE + "The NumPy kernels fed by the plans, the moving-window plan, overlap and scans are bounded only.", T),
+ "C19": ("ensure_minimum_chunksize is proved from the real loop for all inputs (total kept, every chunk >= size, or ValueError exactly when the axis is shorter). The guards supports_native_sliding_window / supports_native_moving_window and the banded plans SlidingWindowReduction._block_plan / MovingWindowReduction._block_plan (rows with None and range columns) are proved; for the sliding plan: under the guard, window t of block q is exactly the block's suffix from t, the whole middle blocks and the first band_offset+t+1 elements of the band blocks b..e. sliding_window_view alone and under reductions (windows larger than a block), overlap boundaries, diff, gradient and cumulative scans are bounded stand-ins against the NumPy definitions.",
+         BASE + "The NumPy kernels fed by the plans, overlap and scans are bounded only.", T),
  "C20": ("The layout barrier ChunksFreeze.lower_once is proved on every path (frozen layout or raise) by record abstraction and _chunks_match is proved to be equality of block sizes; the block_info / block_id payload of map_blocks is a bounded stand-in over the catalogue including layout-drifting inputs.",
          BASE + "Assumed contracts on lower_once/rechunk/cache; payload arithmetic bounded only.", T),
  "C24": ("Region composition (_compose_slices, all steps), sliced chunk sizes (_compute_sliced_chunks) and the slice-into-source rewrite (FromArray._accept_slice: the new region keeps unit steps - what the offset reads of _layer require -, equals the composition, chunks add up) are proved from the real source for all inputs; that every request to a recording source is an in-bounds basic slice returning NumPy's elements is a bounded stand-in, also with the NumPy eager-slice limit set to 0.",
@@ -48,9 +48,9 @@ TEXT = {
          BASE + "load_store_chunk's single write site is covered by the C10 frame analysis; npy-stack round trip and locks are not covered.", T),
  "C26": ("Decided for all import orders by a static import-effect analysis over every dask_array module: nothing executed at import time can reach xarray registration; register() is the only caller of _ensure_registered; no entry point.",
          "Trusted: Python's import semantics as modelled (module top levels, class bodies, decorators, defaults). The 'same values' clause and xarray's own plugin discovery are not decided.", TF),
- "C27": ("moved_fraction's range, its zero on identical layouts and on pure splits, and _rechunk_stage_transfer (one and two axes, known sizes: 0 <= min <= max, never NaN) are proved from the real loops. 'Same chunks move nothing' and every node's transfer_bytes (raw, optimised and materialised expressions of the catalogue) are bounded stand-ins.",
+ "C27": ("moved_fraction's range, its zero on identical layouts and on pure splits, _rechunk_stage_transfer (one and two axes, known sizes: 0 <= min <= max, never NaN), and the overrides SliceSlicesIntegers.transfer_bytes, SlidingWindowReduction.transfer_bytes and MovingWindowReduction.transfer_bytes (rank 1, through the per-block plan contracts) are proved from the real loops. 'Same chunks move nothing' and every node's transfer_bytes (raw, optimised and materialised expressions of the catalogue) are bounded stand-ins.",
          BASE + "The transfer_bytes overrides are bounded only.", T),
- "C28": ("Bounded stand-in for the main statement: compute_chunk_sizes gives the true block sizes over the catalogue and boolean-mask selections, and every operation on an unknown-size array either refuses or equals NumPy (F9 is a recorded known finding). Proved in addition: the index helpers leave indices untouched on NaN axes (normalize_slice / posify_index / check_index).",
+ "C28": ("Proved for all inputs: a non-trivial basic index on an axis of unknown size is refused (slice_slices_and_integers, four typed specialisations), a rechunk along an unknown axis is accepted only when the layout is unchanged (_validate_rechunk, six specialisations), and the index helpers leave indices untouched on NaN axes. Bounded stand-in for the main statement: compute_chunk_sizes gives the true block sizes over the catalogue and boolean-mask selections, and every operation on an unknown-size array either refuses or equals NumPy (F9 is a recorded known finding). Proved in addition: the index helpers leave indices untouched on NaN axes (normalize_slice / posify_index / check_index).",
          "Mostly bounded; the proved part is small.", TB),
  "C29": ("Static analysis of io/_from_array.py for all inputs: every read of the source object is confined to the ndarray-guarded branches. Bounded runs over recording sources check that builders (incl. in-place assignment of lazy values, where, map_blocks with user functions), metadata accessors and optimize() request nothing non-empty and call no user function on a non-empty block.",
          "User block functions and constructors are bounded only.", TF),
